@@ -66,7 +66,7 @@ TEXT = {
         "DESIGN.md 3 (W5), 4 (C11)",
     ),
     "C12": (
-        "Two clauses: (i) every control block the library produces (input_script_sig, Updater, Finalizer) proves its leaf against the output key the wallet handed out -- for the trees wallets use in the ceremony and for drawn trees up to the BIP341 depth limit of 128 (caterpillars, lopsided trees, repeated leaves, other leaf versions), on both backends and across a flip; script-path spends of anyone-can-spend leaves are accepted by the engine; output_prvkey opens the output key; (ii) a single bit flipped in transit in control block, leaf script, leaf version, parity or output key is answered False / refused.",
+        "Two clauses: (i) every control block the library produces (input_script_sig, Updater, Finalizer) proves its leaf against the output key the wallet handed out -- for the trees wallets use in the ceremony and for drawn trees up to the BIP341 depth limit of 128 (caterpillars, lopsided trees, repeated leaves, other leaf versions), on both backends and across a flip; script-path spends of anyone-can-spend leaves are accepted by the engine; output_prvkey opens the output key; (ii) a single bit flipped in transit in control block, leaf script, leaf version, parity or output key is answered False / refused by check_output_pubkey and refused by the engine inside a spend; (iii) an internal key that is no point is refused by every producer, and a TapTweak digest drawn from [n, 2^256) (the hash as a seam) makes producers and checker refuse.",
         "That the output key IS BIP341's formula is sampled against a transcription (btcsim/ref/taproot.py), not decided.",
         "deterministic simulation: in-transit bit-flip injection on taproot proofs inside the ceremony and over drawn tree shapes; oracle = the library's verifier and engine",
         "DESIGN.md 3 (W5), 4 (C12), 10",
@@ -103,7 +103,7 @@ TEXT = {
     ),
     "C20": (
         "Seeded search over call histories (nonce / signer / wallet objects vs reference state machines, checked after every step), over cache / backend / object-identity perturbation sequences (pure calls vs their quiescent baseline) and over thread interleavings (2-4 real threads under a baton scheduler with PCT / uniform / staggered strategies). Sampling, not enumeration.",
-        "Pre-emption at first-visit line boundaries (thorough: also every bytecode) of btclib frames; C calls atomic as under the GIL. Trusted: the reference models in btcsim (ledger dict, two-state machines), the sequential baseline as oracle for concurrent calls.",
+        "Pre-emption at first-visit line boundaries (thorough: also every line event) of btclib frames; half of the thread budget runs each history in a forked child so that the threads are the first callers a process sees (DESIGN 10.10); C calls atomic as under the GIL. Trusted: the reference models in btcsim (ledger dict, two-state machines), the sequential baseline as oracle for concurrent calls.",
         "deterministic simulation: seeded histories vs reference state machines; baton-passed threads with PCT scheduling; fault injection on caches, backend switch, object address reuse, wordlist disk read",
         "DESIGN.md 3 (W8), 4 (C20), 10",
     ),
